@@ -521,19 +521,42 @@ func slowSenderCloseRun(r *vh.Runner, c *vh.Case, i int) {
 		go B.Stop()
 		return
 	}
+	// acknowledged request/response traffic first: it brings the measured
+	// round-trip time, and with it the period of the retransmission ticker,
+	// from the initial third of a second down to milliseconds
+	buf := make([]byte, 4096)
+	for k := 0; k < 40+rng.Intn(80); k++ {
+		a.Write(rng.Bytes(1 + rng.Intn(200)))
+		b.SetReadDeadline(time.Now().Add(3 * time.Second))
+		if _, err := b.Read(buf); err != nil {
+			c.Inconclusive("ping-pong read failed: " + err.Error())
+			go A.Stop()
+			go B.Stop()
+			return
+		}
+		b.Write(rng.Bytes(1 + rng.Intn(200)))
+		a.SetReadDeadline(time.Now().Add(3 * time.Second))
+		if _, err := a.Read(buf); err != nil {
+			c.Inconclusive("ping-pong read failed: " + err.Error())
+			go A.Stop()
+			go B.Stop()
+			return
+		}
+		time.Sleep(time.Millisecond)
+	}
+	a.SetReadDeadline(time.Time{})
+	b.SetReadDeadline(time.Time{})
 	go io.Copy(io.Discard, b)
 	go io.Copy(io.Discard, a)
-	for k := 0; k < 1+rng.Intn(20); k++ {
+	if rng.Bool() {
 		a.Write(rng.Bytes(1 + rng.Intn(3000)))
-		if rng.Bool() {
-			b.Write(rng.Bytes(1 + rng.Intn(500)))
-		}
 	}
 	time.Sleep(time.Duration(rng.Intn(30)) * time.Millisecond)
+	detailRTO := a.VerifInfo().RTO.String()
 	r.Count("evaluations", 1)
 	r.Count("closes_with_a_slow_sender_close", 1)
 	r.Nontrivial(fmt.Sprintf("slowclose|%d", i))
-	detail := map[string]any{"delay_in_sender_close": delay.String()}
+	detail := map[string]any{"delay_in_sender_close": delay.String(), "rto_before_close": detailRTO}
 	call := func(name string, f func()) bool {
 		done := make(chan struct{})
 		go func() { f(); close(done) }()
@@ -556,7 +579,7 @@ func slowSenderCloseRun(r *vh.Runner, c *vh.Case, i int) {
 	if rng.Bool() {
 		first, second = b, a
 	}
-	ok := call("Tube.Close", func() { first.Close(); time.Sleep(time.Duration(rng.Intn(5)) * time.Millisecond); second.Close() }) &&
+	ok := call("Tube.Close", func() { first.Close(); time.Sleep(time.Duration(rng.Pick(0, 2, 20, 20)) * time.Millisecond); second.Close() }) &&
 		call("Tube.WaitForClose", func() { a.WaitForClose(); b.WaitForClose() })
 	if ok {
 		call("Muxer.Stop", func() {
